@@ -1,8 +1,6 @@
 package object
 
 import (
-	"bufio"
-	"bytes"
 	"fmt"
 	"regexp"
 	"strconv"
@@ -69,12 +67,18 @@ func NewCommit(o *Object) (*Commit, error) {
 		Object: o,
 	}
 
-	buf := bytes.NewReader(o.Data)
-	scanner := bufio.NewScanner(buf)
-	for scanner.Scan() {
-		text := scanner.Text()
+	// split at line feeds only: a scanner would drop a carriage return at the end of a line
+	// and stop at a line of 64 KiB, so the message read back would not be the one stored
+	lines := strings.Split(string(o.Data), "\n")
+	if lines[len(lines)-1] == "" {
+		lines = lines[:len(lines)-1]
+	}
+	i := 0
+	for ; i < len(lines); i++ {
+		text := lines[i]
 		splitText := strings.SplitN(text, " ", 2)
 		if len(splitText) != 2 {
+			i++
 			break
 		}
 
@@ -109,11 +113,7 @@ func NewCommit(o *Object) (*Commit, error) {
 		}
 	}
 
-	message := make([]string, 0)
-	for scanner.Scan() {
-		message = append(message, scanner.Text())
-	}
-	commit.Message = strings.Join(message, "\n")
+	commit.Message = strings.Join(lines[i:], "\n")
 
 	return commit, nil
 }
